@@ -20,7 +20,7 @@ TRUSTED = [
     "hx_repl (generator, renderer, reference interpreter of sessions, translation of the generated program to model "
     "operations using the layouts read from the real compiled functions) and hxlib::runner (output capture H1, budget H3)",
     "session semantics as a whole (parser, type inference, known-globals bookkeeping, code generation) are explored by the tie, "
-    "not proved; imports (`needs`) inside sessions are not generated",
+    "not proved; module loading itself is C19's subject (here only that imported names stay visible and callable in later steps)",
 ]
 
 
@@ -99,29 +99,32 @@ def run(ctx):
         # No failure class is excused any more (KF-C14-1..4 are repaired): a step that differs from the session's
         # reference semantics is a violation with the session as the failing input; so is a host call that finds
         # frames of an earlier run on the stack, and a session on which the model mispredicts an observation
-        nrep = 0
-        for i, c in enumerate(cases):
-            k = next((j for j in range(len(c["real"])) if j >= len(c["oracle"]) or c["real"][j] != c["oracle"][j]), None)
-            if k is None and i not in failset and not c["stale"]:
-                continue
-            nrep += 1
-            if nrep > 6:
-                continue
+        def first_div(c):
+            return next((j for j in range(len(c["real"])) if j >= len(c["oracle"]) or c["real"][j] != c["oracle"][j]), None)
+        # concrete failing sessions first, then sessions the model mispredicts
+        div = [i for i, c in enumerate(cases) if first_div(c) is not None]
+        stale = [i for i, c in enumerate(cases) if first_div(c) is None and c["stale"]]
+        mism = [i for i, c in enumerate(cases) if first_div(c) is None and not c["stale"] and i in failset]
+        for i in div[:5] + stale[:2] + mism[:3]:
+            c = cases[i]
+            k = first_div(c)
             rep = {"case_seed": c["seed"], "profile": prof, "source": c["source"], "real_steps": c["real"], "oracle_steps": c["oracle"],
                    "observed": c["observed"], "model_query": c["query"], "first_step_differing_from_oracle": k}
             if i in failset:
                 mo, _ = vlib.coq_eval_terms("c14", IMPORTS, [f"session_obs_noflags ({c['query']})"])
                 rep["model"] = mo[0]
             if k is not None:
-                sig = "c14:session-divergence"
-                ctx.violation(sig, f"step {k} of the session does not do what the session's reference semantics say "
+                ctx.violation("c14:session-divergence", f"step {k} of the session does not do what the session's reference semantics say "
                               f"(real {c['real'][k] if k < len(c['real']) else None!r}, expected {c['oracle'][k] if k < len(c['oracle']) else None!r})", rep)
-                by_sig[sig] = by_sig.get(sig, 0) + 1
             elif c["stale"]:
                 ctx.violation("c14:frames-left-between-steps", "a host call found frames of an earlier run on the VM's frame stack", rep)
             else:
                 ctx.violation("c14:model-mismatch", "the implementation follows the property on this session but the model "
                               "predicts other observations: Model/GlobalsSync.v no longer describes the code", rep)
+        if div:
+            by_sig["c14:session-divergence"] = by_sig.get("c14:session-divergence", 0) + len(div)
+        if mism:
+            by_sig["c14:model-mismatch"] = by_sig.get("c14:model-mismatch", 0) + len(mism)
         ctx.add_samples([{"source": c["source"][:500], "real_steps": c["real"][:6], "oracle_steps": c["oracle"][:6]} for c in cases[:2] + cases[7:8]])
     ctx.cov["evaluations"] = total
     ctx.cov["distinct_nontrivial"] = len(distinct)
@@ -131,7 +134,9 @@ def run(ctx):
                        "redefinitions, assignments and increments of earlier `let mut`, fn definitions and redefinitions of four kinds "
                        "-- pure, reading a global, mutating a global, failing --, prints of variables and of calls), inputs rejected at "
                        "compile time (undefined name, syntax error, assignment to an immutable) with valid statements around the bad "
-                       "one, inputs failing at run time after printing / defining fresh names, host calls by name and through a cached "
+                       "one, inputs failing at run time after printing / defining fresh names, `needs` inputs (whole-module, aliased and selective "
+                       "imports of two generated user modules written to the session's working directory, and of std.math) whose every imported "
+                       "spelling is used by LATER inputs and by host calls into the imported functions, host calls by name and through a cached "
                        "callable (succeeding, failing inside the callee, undefined name); no input observes the partial effects of a "
                        "failed input; functions that call other global functions (two-level calls from inputs and from the host, including into a failing callee); "
                        "opt level 1 and (every 5th session) 0; per step: class, printed text and returned value vs the reference "
